@@ -550,7 +550,7 @@ class BlockUploadStream(io.RawIOBase):
             return self.readall()
 
         try:
-            response = self.sdo_client.read_response()
+            response = self._read_segment()
         except SdoCommunicationError:
             response = self._retransmit()
         else:
@@ -560,7 +560,7 @@ class BlockUploadStream(io.RawIOBase):
                 self._ackseq = seqno
             else:
                 # Wrong sequence number
-                response = self._retransmit()
+                response = self._retransmit(response)
         res_command, = struct.unpack_from("B", response)
         if self._ackseq >= self.blksize or res_command & NO_MORE_BLOCKS:
             self._ack_block()
@@ -586,9 +586,27 @@ class BlockUploadStream(io.RawIOBase):
                 f"Received {self.pos} bytes but the server announced {self.size}")
         return data
 
-    def _retransmit(self):
+    def _read_segment(self):
+        """Read the next segment of the current sub-block."""
+        while True:
+            response = self.sdo_client.read_response()
+            seqno = response[0] & 0x7F
+            # Anything else is a duplicate or does not belong to this sub-block
+            if self._ackseq < seqno <= self.blksize:
+                return response
+
+    def _retransmit(self, response=None):
         logger.info("Only %d sequences were received. Requesting retransmission",
                     self._ackseq)
+        # The server sends the whole sub-block before it looks at our answer
+        while response is not None:
+            res_command, = struct.unpack_from("B", response)
+            if res_command & NO_MORE_BLOCKS or res_command & 0x7F == self.blksize:
+                break
+            try:
+                response = self._read_segment()
+            except SdoCommunicationError:
+                break
         end_time = time.time() + self.sdo_client.RESPONSE_TIMEOUT
         self._ack_block()
         # The server goes on after the last acknowledged segment with a new
@@ -596,7 +614,7 @@ class BlockUploadStream(io.RawIOBase):
         self._ackseq = 0
         while time.time() < end_time:
             try:
-                response = self.sdo_client.read_response()
+                response = self._read_segment()
             except SdoCommunicationError:
                 # Nothing more is coming, tell the server that we give up
                 break
